@@ -145,6 +145,33 @@ def rand_pattern_and_pictures(rng, cf):
     return pattern, G.rand_pictures(rng, cf, n=frames)
 
 
+def directed_geometry_trials():
+    """the one level key that depends on the picture GEOMETRY (slices_have_same_dimensions, forced true or false) against
+    every combination of source sampling x picture coding mode x frame height x slice rows where frame and field heights
+    differ in divisibility -> [(config, pictures, restrictions)]"""
+    import random
+    import codecgen as G
+    from vc2_conformance.codec_features import CodecFeatures
+    from vc2_data_tables import Levels
+
+    rng = random.Random(16)
+    base = G.describe(G.rand_config(rng, lossless=False, profile=None))
+    out = []
+    for ss in (0, 1):
+        for pcm in (0, 1):
+            for h, sy in ((4, 2), (6, 2), (12, 4), (12, 3), (8, 3), (20, 4)):
+                for depth in (0, 1):
+                    d = dict(base, profile=3, pcm=pcm, lossless=False, w=8, h=h, cdf=0, ss=ss, luma_off=0, luma_exc=255, cd_exc=255, cd_off=128,
+                             wavelet=4, wavelet_ho=4, depth=depth, depth_ho=0, sx=2, sy=sy, frag=0, picture_bytes=8 * h * 3,
+                             qm={0: {"LL": 0}} if depth == 0 else {0: {"LL": 0}, 1: {"HL": 1, "LH": 1, "HH": 2}})
+                    d.pop("meta", None)
+                    cf = CodecFeatures(G.from_description(d), level=Levels(1))
+                    pics = G.rand_pictures(rng, cf, n=1)
+                    for want in (True, False):
+                        out.append((cf, pics, {"slices_have_same_dimensions": [want]}))
+    return out
+
+
 def rand_config(rng):
     import codecgen as G
     from vc2_conformance.codec_features import CodecFeatures
@@ -212,10 +239,13 @@ class Prop(object):
         self._bad = None
         self._known = {}
         ctx.corr_names.append("REAL encoder + validator under synthetic single-column level tables")
+        todo = [(cf, pics, restr, None) for cf, pics, restr in directed_geometry_trials()]
+        ctx.count("directed-geometry-trials", len(todo))
         for _ in range(ctx.n(700, 15000)):
             cf = rand_config(rng)
             pattern, pics = rand_pattern_and_pictures(rng, cf)
-            restr = rand_restrictions(rng) if rng.random() < 0.8 else {}
+            todo.append((cf, pics, rand_restrictions(rng) if rng.random() < 0.8 else {}, pattern))
+        for cf, pics, restr, pattern in todo:
             try:
                 out, detail = trial(cf, pics, restr, pattern)
             except Exception as e:  # noqa
@@ -312,10 +342,12 @@ class Prop(object):
                 if not (m and m.group(1) in F8_KEYS):
                     return {"real_level_format": c15.describe(cf), "why": "under the real level %d: %s" % (int(cf["level"]), why)}
         rng = ctx.rng("search")
+        todo = [(cf, pics, restr, None) for cf, pics, restr in directed_geometry_trials()]
         for _ in range(ctx.n(2000, 30000)):
             cf = rand_config(rng)
             pattern, pics = rand_pattern_and_pictures(rng, cf)
-            restr = rand_restrictions(rng) if rng.random() < 0.8 else {}
+            todo.append((cf, pics, rand_restrictions(rng) if rng.random() < 0.8 else {}, pattern))
+        for cf, pics, restr, pattern in todo:
             try:
                 out, detail = trial(cf, pics, restr, pattern)
             except Exception as e:  # noqa
